@@ -1529,3 +1529,81 @@ func ruleExistsByID(r *Run) {
 	}
 	r.Count("style_existence_predicates_guarding_emission", n)
 }
+
+// ---------------------------------------------------------------------------
+// R-PASS-UNCONDITIONAL (C16): every directive pass runs over the text that is actually rendered.
+// In renderTemplate a call of a pass (a TemplateEngine method from text to text) may be skipped
+// only under a condition computed from the text being rendered; a condition that reads the
+// Template object (its recorded blocks, its variables, its name) describes the template's OWN
+// source, which for a derived template is not the text that is rendered (the parent's text with
+// the overrides applied) — the parent's directives then reach the output unrendered.
+// ---------------------------------------------------------------------------
+
+func rulePassUnconditional(r *Run) {
+	p := r.P
+	anchor := r.mustFunc(pkgDoc, "(*TemplateEngine).renderTemplate")
+	if anchor == nil {
+		return
+	}
+	sl := newSlicer(p)
+	n := 0
+	for _, fn := range helperGroup(p, anchor) {
+		allInstrs(fn, func(in ssa.Instruction) {
+			c, ok := in.(*ssa.Call)
+			if !ok {
+				return
+			}
+			cal := staticCallee(c)
+			if cal == nil || !p.inModule(cal) || cal.Signature.Recv() == nil || !typeIs(cal.Signature.Recv().Type(), pkgDoc, "TemplateEngine") {
+				return
+			}
+			if cal.Signature.Results().Len() != 1 || !isStringType(cal.Signature.Results().At(0).Type()) || len(c.Call.Args) < 2 || !isStringType(c.Call.Args[1].Type()) {
+				return
+			}
+			n++
+			bad := ""
+			B := c.Block()
+			for _, A := range fn.Blocks {
+				if A == B || !A.Dominates(B) || len(A.Instrs) == 0 || len(A.Succs) != 2 {
+					continue
+				}
+				iff, ok := A.Instrs[len(A.Instrs)-1].(*ssa.If)
+				if !ok {
+					continue
+				}
+				bypass := false
+				for _, s := range A.Succs {
+					if s != B && !reachableBlocks(s, nil)[B] {
+						bypass = true
+					}
+				}
+				if !bypass {
+					continue
+				}
+				res := sl.Slice(iff.Cond)
+				for f := range res.fieldsReadOf(p, map[string]bool{"Template": true}) {
+					if f != "Template.Content" {
+						bad = f
+					}
+				}
+				if bad == "" {
+					for v := range res.Vals {
+						if par, ok := v.(*ssa.Parameter); ok && typeIs(par.Type(), pkgDoc, "Template") {
+							if cc, isCall := iff.Cond.(*ssa.Call); isCall {
+								for _, a := range cc.Call.Args {
+									if a == ssa.Value(par) {
+										bad = "the template object (through " + calleeName(cc) + ")"
+									}
+								}
+							}
+						}
+					}
+				}
+			}
+			r.Check("pass-unconditional", shortName(fn)+":"+shortName(cal), c.Pos(), bad == "",
+				fmt.Sprintf("%s runs the pass %s: %s", shortName(fn), shortName(cal),
+					map[bool]string{true: "unconditionally, or under a condition on the rendered text only", false: "whether it runs depends on " + bad + " — what was recorded about the template's own source, not the text being rendered; for a template that extends another the parent's directives of that kind are copied to the output unrendered"}[bad == ""]))
+		})
+	}
+	r.Min("render_passes_in_renderTemplate", n, 4)
+}
